@@ -32,12 +32,35 @@ def garbage(shape, dtype, fill):
     return a
 
 
+_LIBC = None
+
+
 def poison(byte):
     """fill recently freed heap blocks of many sizes with a byte pattern: output buffers a callee allocates with
     np.empty (gufunc outputs behind the accessors) then start from DIFFERENT junk in the two runs, so a cell the
     kernel never writes shows as a difference between repeated calls"""
     blocks = [np.full(sz, byte, dtype="uint8") for sz in (8, 16, 24, 32, 48, 64, 96, 128, 192, 256, 384, 512, 1024, 2048, 4096, 16384, 65536) for _ in range(6)]
     del blocks
+    # arrays a compiled kernel allocates itself (np.empty inside @njit) come from the C allocator through numba's runtime, not from
+    # numpy's small-block cache: fill and free C blocks of every small size class too (they land in the allocator's per-size free lists)
+    global _LIBC
+    if _LIBC is None:
+        import ctypes
+        _LIBC = ctypes.CDLL(None)
+        _LIBC.malloc.restype = ctypes.c_void_p
+        _LIBC.malloc.argtypes = [ctypes.c_size_t]
+        _LIBC.free.argtypes = [ctypes.c_void_p]
+        _LIBC.memset.argtypes = [ctypes.c_void_p, ctypes.c_int, ctypes.c_size_t]
+        _LIBC.memset.restype = ctypes.c_void_p
+    ptrs = []
+    for sz in list(range(16, 1025, 16)) + [1536, 2048, 3072, 4096, 8192]:
+        for _ in range(9):
+            q = _LIBC.malloc(sz)
+            if q:
+                _LIBC.memset(q, byte, sz)
+                ptrs.append(q)
+    for q in ptrs:
+        _LIBC.free(q)
 
 
 def cases(seed, tier):
@@ -124,12 +147,22 @@ def cases(seed, tier):
             if kd in ("someneg", "gaps", "full"):
                 # cells that are neither nodata nor a non-negative observation (negative values, NaN in a float series with a numeric
                 # nodata): the pixel is still fitted, those cells must still be written; the pixel sits between two ordinary neighbours
+                # (scratch arrays a kernel allocates per pixel are recycled from the previous pixel, so an unwritten cell echoes the
+                # NEIGHBOUR: the second run puts the same pixel between different neighbours and only the pixel's own row is compared)
                 for dt in ("int16", "float32"):
                     cube = np.stack([np.abs(yi), yi, np.abs(yi)[::-1]]).astype(dt).reshape(1, 3, -1)
                     if dt == "float32" and n >= 3:
                         cube[0, 1, n // 2] = np.nan
-                    gu("gammastd_yxt", lab + f",raw,{dt}", True, lambda b, cube=cube: stats.gammastd_yxt(cube, ND, 0, cube.shape[-1]), [])
-                    gu("gammastd_grp", lab + f",raw,{dt}", True, lambda b, cube=cube: stats.gammastd_grp(cube, np.zeros(cube.shape[-1], dtype="int16"), 1, ND, np.array([[0, cube.shape[-1]]], dtype="int16")), [])
+                    cube2 = cube.copy()
+                    cube2[0, 0] = (np.arange(n) * 37 % 11 + 1).astype(dt)
+                    cube2[0, 2] = (3000 - np.arange(n) * 5).astype(dt)
+                    zg, cal1 = np.zeros(n, dtype="int16"), np.array([[0, n]], dtype="int16")
+                    f1 = lambda b, cube=cube: np.array(stats.gammastd_yxt(cube, ND, 0, cube.shape[-1])[0, 1])  # noqa: E731
+                    f1.second = lambda b, cube2=cube2: np.array(stats.gammastd_yxt(cube2, ND, 0, cube2.shape[-1])[0, 1])
+                    gu("gammastd_yxt", lab + f",raw,{dt}", True, f1, [])
+                    f2 = lambda b, cube=cube, zg=zg, cal1=cal1: np.array(stats.gammastd_grp(cube, zg, 1, ND, cal1)[0, 1])  # noqa: E731
+                    f2.second = lambda b, cube2=cube2, zg=zg, cal1=cal1: np.array(stats.gammastd_grp(cube2, zg, 1, ND, cal1)[0, 1])
+                    gu("gammastd_grp", lab + f",raw,{dt}", True, f2, [])
             gu("_mann_kendall_trend_gu", lab, True, lambda b, yi=yi: stats._mann_kendall_trend_gu(yi, b[0], b[1], b[2], b[3]), [((), "float32"), ((), "float32"), ((), "float32"), ((), "int8")])
             gu("_mann_kendall_trend_gu_nd", lab, True, lambda b, yi=yi: stats._mann_kendall_trend_gu_nd(yi, ND, b[0], b[1], b[2], b[3]), [((), "float32"), ((), "float32"), ((), "float32"), ((), "int8")])
             gu("mann_kendall_trend_1d", lab, True, lambda b, yi=yi: tuple(np.float64(v) for v in stats.mann_kendall_trend_1d(yi)), [])
@@ -215,7 +248,7 @@ def main():
             poison(0x4D)
             r1 = fn([garbage(s, d, 77) for s, d in outs])
             poison(0xD3)
-            r2 = fn([garbage(s, d, 13) for s, d in outs])
+            r2 = getattr(fn, "second", fn)([garbage(s, d, 13) for s, d in outs])
             ev["digest1"], ev["digest2"] = dig(r1), dig(r2)
         except IndexError:
             ev["outcome"] = "IndexError"
